@@ -113,6 +113,8 @@ pub struct Sim<W: World> {
     pub t_last: tokio::time::Instant,
     pub digest: Digest,
     pub decisions: Option<Vec<u32>>,
+    /// (event sequence number, virtual instant) of every poll of endpoint 0's connection task
+    pub conn0_polls: Vec<(u64, tokio::time::Instant)>,
     pub trace: Option<Vec<String>>,
     spawn_q: Rc<RefCell<Vec<(String, usize, LocalFut)>>>,
 }
@@ -133,6 +135,7 @@ impl<W: World> Sim<W> {
             t_last: tokio::time::Instant::now(),
             digest: Digest::default(),
             decisions: if record { Some(vec![]) } else { None },
+            conn0_polls: vec![],
             trace: if std::env::var_os("SIM_TRACE").is_some() { Some(vec![]) } else { None },
             spawn_q: Rc::new(RefCell::new(vec![])),
         }
@@ -244,7 +247,10 @@ impl<W: World> Sim<W> {
                     if let Some(mut fut) = self.slots[id].fut.take() {
                         let w = self.slots[id].waker.clone();
                         let mut tcx = Context::from_waker(&w);
-                        self.seq.tick();
+                        let sq = self.seq.tick();
+                        if self.slots[id].cls == CLS_CONN0 {
+                            self.conn0_polls.push((sq, tokio::time::Instant::now()));
+                        }
                         let done = fut.as_mut().poll(&mut tcx).is_ready();
                         self.digest.u64(((id as u64) << 1) | done as u64);
                         if let Some(t) = &mut self.trace {
